@@ -332,8 +332,33 @@ example : ∃ ps, parseAll exRaws.flatten = some ps ∧
 theorem ucs2_roundtrip (cps : List Nat) (h : ∀ c ∈ cps, c < 65536 ∧ ¬ (55296 ≤ c ∧ c ≤ 57343)) :
     ucs2Dec (ucs2Enc cps) = cps := ucs2_dec_enc cps h
 
+/-- **the repaired Joliet codec** (`utf16.Encode` / `utf16.Decode`, big endian) gives every sequence
+    of Unicode scalar values back, code points beyond the BMP included (as surrogate pairs) -/
+theorem joliet_utf16_roundtrip (cps : List Nat) (h : ∀ c ∈ cps, Gpt.validRune c = true) :
+    jolietDec true (jolietEnc true cps) = cps := joliet_utf16_dec_enc cps h
+
+/-- **Joliet names round-trip for the codec THE TREE has** (`Generated.Iso.jolietUtf16` is regenerated
+    from util.go: do `ucs2StringToBytes` / `bytesToUCS2String` go through unicode/utf16): every
+    sequence of Unicode scalar values comes back - restricted to the BMP as long as the tree has the
+    two-bytes-per-rune codec (recorded finding iso-joliet-nonbmp-name), unrestricted once it is repaired.
+    The correspondence run feeds code points beyond the BMP to the real codec and to
+    `jolietEnc/jolietDec Generated.Iso.jolietUtf16`, so a wrong switch shows as a mismatch. -/
+theorem joliet_name_roundtrip (cps : List Nat)
+    (h : ∀ c ∈ cps, Gpt.validRune c = true ∧ (Generated.Iso.jolietUtf16 = false → c < 65536)) :
+    jolietDec Generated.Iso.jolietUtf16 (jolietEnc Generated.Iso.jolietUtf16 cps) = cps := by
+  cases hb : Generated.Iso.jolietUtf16 with
+  | true => exact joliet_utf16_dec_enc cps (fun c hc => (h c hc).1)
+  | false =>
+    simp only [jolietDec, jolietEnc, Bool.false_eq_true, if_false]
+    refine ucs2_dec_enc cps (fun c hc => ⟨(h c hc).2 hb, ?_⟩)
+    have hv := (h c hc).1
+    simp only [Gpt.validRune, Bool.or_eq_true, Bool.and_eq_true, decide_eq_true_eq] at hv
+    omega
+
 /-! non-vacuity / witnesses -/
-example : ucs2Dec (ucs2Enc [97, 128512]) = [97, 62976] := by decide   -- a😀 comes back as a + U+F600
+example : ucs2Dec (ucs2Enc [97, 128512]) = [97, 62976] := by decide   -- two bytes per rune: a😀 comes back as a + U+F600
+example : jolietEnc true [97, 128512] = [0, 97, 0xD8, 0x3D, 0xDE, 0x00] := by decide   -- UTF-16: a, then the pair D83D DE00
+example : jolietDec true (jolietEnc true [97, 128512, 228]) = [97, 128512, 228] := by decide
 example : ucs2Dec (ucs2Enc [228, 26085, 65]) = [228, 26085, 65] := by decide
 -- a name of 5 bytes: one NM entry; the reader finds it behind a PX-like entry and before padding
 example : (parseArea ([80, 88, 4, 1] ++ nmBytes [97, 98, 99, 100, 101] ++ [0])).bind getFilename = some [97, 98, 99, 100, 101] := by decide
